@@ -10,8 +10,13 @@ package main
 import (
 	"fmt"
 	"image"
+	"time"
 
 	"github.com/makiuchi-d/gozxing"
+	"github.com/makiuchi-d/gozxing/aztec"
+	azdecoder "github.com/makiuchi-d/gozxing/aztec/decoder"
+	azdetector "github.com/makiuchi-d/gozxing/aztec/detector"
+	"github.com/makiuchi-d/gozxing/oned"
 )
 
 func init() {
@@ -61,6 +66,11 @@ func detrestHintVals() []detrestHintVal {
 func detrestGlueSuite(c *Ctx) {
 	c.res.Rule += " || readers' glue (c06rest glue): all fifteen image-level readers on rendered symbols of their own symbology and on arbitrary images, with hint maps in which one key carries a value of an unexpected dynamic type " +
 		"(bool, int, string, nil, float, foreign slices, struct, func, typed-nil callback) or a real result-point callback (must not change the verdict); oracle: no panic, result xor error of a documented kind"
+	{
+		r := c.Rng.Fork()
+		detrestGlueCallback(c, r)
+		detrestGlueAztec(c, r)
+	}
 	n := c.Pick(900, 30000)
 	vals := detrestHintVals()
 	c.Parallel(n, 16, func(i int, r *Rng) {
@@ -104,6 +114,100 @@ func detrestGlueSuite(c *Ctx) {
 			_ = outside // points may legitimately lie outside (rotated retry): counted, not judged
 		}
 	})
+}
+
+// the UPC/EAN hint prologue against Gzx.Glue.upceanCallback: is the callback invoked?
+func detrestGlueCallback(c *Ctx, r *Rng) {
+	mods := c06Modules(gozxing.BarcodeFormat_EAN_13, "5901234123457")
+	if mods == nil {
+		return
+	}
+	k := 2
+	m := c06detNew(len(mods)*k+40, 30)
+	for x, b := range mods {
+		if b {
+			c06detRect(m, 20+x*k, 0, 20+x*k+k-1, 29, true)
+		}
+	}
+	readers := map[string]func() gozxing.Reader{"ean13": oned.NewEAN13Reader, "upca": oned.NewUPCAReader,
+		"multi": func() gozxing.Reader { return oned.NewMultiFormatUPCEANReader(nil) }}
+	for name, mk := range readers {
+		kinds := []detrestHintVal{{"absent", nil}, {"callback", nil}, {"nilcallback", gozxing.ResultPointCallback(nil)}}
+		kinds = append(kinds, detrestHintVals()[:11]...)
+		for _, kd := range kinds {
+			called := false
+			hints := map[gozxing.DecodeHintType]interface{}{}
+			switch kd.name {
+			case "absent":
+			case "callback":
+				hints[gozxing.DecodeHintType_NEED_RESULT_POINT_CALLBACK] = gozxing.ResultPointCallback(func(gozxing.ResultPoint) { called = true })
+			default:
+				hints[gozxing.DecodeHintType_NEED_RESULT_POINT_CALLBACK] = kd.v
+			}
+			out := SafeT(5*time.Second, func() string {
+				mk().Decode(detrestBitmap(m), hints)
+				return fmt.Sprintf("ok called=%v", called)
+			})
+			c.Cmp("c06rest-glue", "c06rest gluecb "+kd.name, out)
+			c.Oracle("c06rest-glue", out != "PANIC" && out != "TIMEOUT", "c06rest:upcean-callback-hint:"+out,
+				name+" NEED_RESULT_POINT_CALLBACK="+kd.name, "UPC/EAN reader with this hint gave "+out)
+			c.Note("c06rest glue upcean-callback " + kd.name + " " + out)
+		}
+	}
+}
+
+// AztecReader.Decode against Gzx.Glue.aztecRead: the four sub-results are observed on the real detector / decoder
+func detrestGlueAztec(c *Ctx, r *Rng) {
+	syms := detrestAztecSymbols(c, r, c.Pick(12, 100))
+	n := c.Pick(250, 8000)
+	for i := 0; i < n && c.TimeLeft(); i++ {
+		img := detrestAZGen(r, syms, c.Pick(110, 300))
+		if r.Chance(0.35) { // heavy damage away from the centre: located, parameters read, data undecodable
+			for j, nn := 0, img.w*img.h/6; j < nn; j++ {
+				x, y := r.Intn(img.w), r.Intn(img.h)
+				dx, dy := x-img.w/2, y-img.h/2
+				if dx*dx+dy*dy > (img.w*img.w+img.h*img.h)/40 {
+					c06detSet(img.bm, x, y, r.Bool())
+				}
+			}
+			img.class += "-outer-damage"
+		}
+		step := func(mirror bool) (string, string) {
+			d, c0 := "0", "0"
+			Safe(func() string {
+				res, e := azdetector.NewDetector(img.bm).Detect(mirror)
+				if e == nil && res != nil {
+					d = "1"
+					if dr, e2 := azdecoder.NewDecoder().Decode(res); e2 == nil && dr != nil {
+						c0 = "1"
+					}
+				}
+				return ""
+			})
+			return d, c0
+		}
+		d0, c0 := step(false)
+		d1, c1 := step(true)
+		out := SafeT(10*time.Second, func() string {
+			res, e := aztec.NewAztecReader().Decode(detrestBitmap(img.bm), nil)
+			if e != nil {
+				if res != nil {
+					return "BOTH"
+				}
+				return "ERR:" + errKind(e)
+			}
+			if res == nil {
+				return "NILNIL"
+			}
+			return "ok"
+		})
+		c.CmpF("c06rest-glue", fmt.Sprintf("c06rest glueaz %s %s %s %s", d0, c0, d1, c1), out, func(g, m string) (bool, bool) {
+			return g == c06detHead(m), false
+		})
+		c.Oracle("c06rest-glue", out == "ok" || out == "ERR:notfound" || out == "ERR:format", "c06rest:aztec-reader:"+out,
+			fmt.Sprintf("aztec.Decode %dx%d bits=%s", img.w, img.h, c06detBits(img.bm)), "AztecReader.Decode gave "+out)
+		c.Note(fmt.Sprintf("c06rest glue aztec d0=%s c0=%s d1=%s c1=%s %s", d0, c0, d1, c1, out))
+	}
 }
 
 func detrestGlueBitmap(r *Rng, g *image.Gray) (*gozxing.BinaryBitmap, string) { return c06Bitmap(r, g) }
